@@ -362,6 +362,7 @@ class Session:
     def __init__(self) -> None:
         self.compilers: dict[str, Any] = {}
         self.decompilers: dict[str, Any] = {}
+        self.objs: dict[str, Any] = {}           # routine-set OBJECTS shared by several calls (infos, ops, coroutines)
         self.keep: list[Any] = []
 
 
@@ -390,6 +391,11 @@ def do_call(sess: Session, call: dict) -> dict:
         from explorerscript.ssb_converting.ssb_compiler import ExplorerScriptSsbCompiler
         slot = call.get("slot")
         lookup = call.get("lookup", [])
+        fname = call.get("file", "/nonexistent/main.exps")
+        if call.get("project"):
+            root = materialise(call["project"])
+            fname = os.path.join(root, call["project"]["main"])
+            lookup = [os.path.join(root, x) for x in call["project"].get("lookup", [])]
         if slot is None:
             c = ExplorerScriptSsbCompiler(PERF_VAR, list(lookup))
         else:
@@ -397,12 +403,18 @@ def do_call(sess: Session, call: dict) -> dict:
             if key not in sess.compilers:
                 sess.compilers[key] = ExplorerScriptSsbCompiler(PERF_VAR, list(lookup))
             c = sess.compilers[key]
+        ctor_before = (list(c.lookup_paths), list(c.recursion_check), c.performance_progress_list_var_name)
         try:
-            c.compile(call["text"], call.get("file", "/nonexistent/main.exps"))
+            c.compile(call["text"], fname, macros_only=bool(call.get("macros_only")))
             res: dict = {}
+            if call.get("store") and c.routine_ops is not None:
+                from explorerscript.ssb_converting.ssb_data_types import SsbCoroutine
+                sess.objs[call["store"]] = (c.routine_infos, c.routine_ops,
+                                            [SsbCoroutine(i, n) for i, n in enumerate(c.named_coroutines) if isinstance(n, str)])
         except BaseException as e:  # noqa
             res = _exc(e)
         res.update(compiler_fields(c))
+        res["_ctor_changed"] = ctor_before != (list(c.lookup_paths), list(c.recursion_check), c.performance_progress_list_var_name)
         return res
     if kind in ("decompile", "compile_decompile"):
         from explorerscript.ssb_converting.ssb_data_types import DungeonModeConstants, SsbCoroutine
@@ -417,7 +429,7 @@ def do_call(sess: Session, call: dict) -> dict:
             infos, ops = c.routine_infos, c.routine_ops
             coros = [SsbCoroutine(i, n) for i, n in enumerate(c.named_coroutines) if isinstance(n, str)]
         else:
-            infos, ops, coros = rsjson.rs_from_json(call["rs"])
+            infos, ops, coros = shared_objects(sess, call)
         before = rsjson.rs_to_json(infos, ops, [None] * len(infos))
         ind_before = params_with_indent(ops)
         d = ExplorerScriptSsbDecompiler(infos, ops, coros, PERF_VAR, DungeonModeConstants(*DMODE))
@@ -432,6 +444,50 @@ def do_call(sess: Session, call: dict) -> dict:
         res["input_after"] = rsjson.rs_to_json(infos, ops, [None] * len(infos))
         ind_after = params_with_indent(ops)
         res["_indent_changed"] = sum(1 for a, b in zip(ind_before, ind_after) if a != b)
+        return res
+    if kind == "ssbs_decompile":
+        from explorerscript.ssb_script.ssb_converting.ssb_decompiler import SsbScriptSsbDecompiler
+        infos, ops, coros = shared_objects(sess, call)
+        before = rsjson.rs_to_json(infos, ops, [None] * len(infos))
+        ind_before = params_with_indent(ops)
+        try:
+            text, sm = SsbScriptSsbDecompiler(infos, ops, coros).convert()
+            res = {"text": text, "source_map": sm_json(sm)}
+        except BaseException as e:  # noqa
+            res = _exc(e)
+        res["input_before"] = before
+        res["input_after"] = rsjson.rs_to_json(infos, ops, [None] * len(infos))
+        res["_indent_changed"] = sum(1 for a, b in zip(ind_before, params_with_indent(ops)) if a != b)
+        return res
+    if kind == "reset_indent":              # diagnosis only: forget what earlier printing left on the shared parameter objects
+        n = 0
+        for infos, ops, coros in sess.objs.values():
+            for r in ops:
+                for o in r:
+                    for prm in o.params:
+                        if hasattr(prm, "indent") and prm.indent != 0:
+                            prm.indent = 0
+                            n += 1
+        return {"reset": n}
+    if kind == "cli_build":
+        # the compile CLI's JSON builder after an API compile, then the decompile CLI's reader on that JSON
+        from explorerscript.cli import compile as cc, decompile as cd
+        from explorerscript.ssb_converting.ssb_compiler import ExplorerScriptSsbCompiler
+        from explorerscript.ssb_converting.ssb_data_types import DungeonModeConstants
+        from explorerscript.ssb_converting.ssb_decompiler import ExplorerScriptSsbDecompiler
+        c = ExplorerScriptSsbCompiler(PERF_VAR, [])
+        try:
+            c.compile(call["text"], call.get("file", "/nonexistent/main.exps"))
+            routines = cc.build_routines_json(c.routine_infos, c.named_coroutines, c.routine_ops)
+            res = {"routines": json.loads(json.dumps(routines, default=str))}
+        except BaseException as e:  # noqa
+            return dict(_exc(e), stage="compile/build")
+        try:
+            infos, coros, ops = cd.read_routines(routines)
+            text, sm = ExplorerScriptSsbDecompiler(infos, ops, coros, PERF_VAR, DungeonModeConstants(*DMODE)).convert()
+            res.update({"text": text, "source_map": sm_json(sm)})
+        except BaseException as e:  # noqa
+            res.update(dict(_exc(e), stage="read/decompile"))
         return res
     if kind == "convert_again":
         ent = sess.decompilers.get(call["keep"])
@@ -512,6 +568,33 @@ def do_call(sess: Session, call: dict) -> dict:
     raise ValueError("unknown call kind " + kind)
 
 
+def materialise(project: dict) -> str:
+    """write the files of a generated project (import graph) below a directory named after their content; returns the root"""
+    h = hashlib.sha256(json.dumps(project["files"], sort_keys=True).encode()).hexdigest()[:16]
+    root = os.path.join(project.get("base", "/tmp/esv_proj"), h)
+    marker = os.path.join(root, ".complete")
+    if not os.path.exists(marker):
+        for rel, content in project["files"].items():
+            path = os.path.join(root, rel)
+            os.makedirs(os.path.dirname(path), exist_ok=True)
+            tmp = f"{path}.{os.getpid()}.tmp"       # (several sessions may materialise the same project at once)
+            with open(tmp, "w", encoding="utf-8") as fh:
+                fh.write(content)
+            os.replace(tmp, path)
+        open(marker, "w").close()
+    return root
+
+
+def shared_objects(sess: Session, call: dict) -> tuple:
+    """the routine-set objects of a call: new ones from the JSON, or — with "obj" — the objects earlier calls of the session used"""
+    key = call.get("obj")
+    if key is None:
+        return rsjson.rs_from_json(call["rs"])
+    if key not in sess.objs:
+        sess.objs[key] = rsjson.rs_from_json(call["rs"])
+    return sess.objs[key]
+
+
 def digest(res: dict) -> str:
     """keys starting with '_' are measurements of the run, not part of the result"""
     return hashlib.sha256(json.dumps({k: v for k, v in res.items() if not k.startswith("_")}, sort_keys=True, ensure_ascii=True).encode()).hexdigest()[:16]
@@ -537,6 +620,8 @@ def run_session(arg: dict) -> dict:
         row["summary"] = {k: res[k] for k in ("error", "site", "msg", "skipped", "stage") if k in res}
         if "text" in res:
             row["summary"]["fallback"] = res["text"].startswith("//?: is-ssb-script")
+        if res.get("_ctor_changed"):
+            row["ctor_changed"] = True
         if "input_after" in res:
             row["input_same"] = res["input_after"] == res["input_before"]
             row["indent_changed"] = res.get("_indent_changed", 0)
